@@ -1,3 +1,3 @@
 Require Import ExtrOcamlBasic ExtrOcamlNativeString.
 From MPSV Require Import Cluster.ClusterModel.
-Extraction "../ocaml/cluster.ml" cluster_seq cluster_step_seq cluster_par newton_isolated components touch_of_matrix.
+Extraction "../ocaml/cluster.ml" cluster_seq cluster_step_seq cluster_par cluster_step_fd cluster_step_m newton_isolated newton_iso_fd newton_iso_m components touch_of_matrix.
